@@ -10,6 +10,7 @@ CONSTANTS
   BulkVersionsUsesEpoch = FALSE
   FillPolicy = "if_same_generation"
   FlushIgnoresCleanFlag = FALSE
+  FlushBumpsGeneration = TRUE
   Export = FALSE
   MaxSteps = 6
   WithReads = TRUE
